@@ -146,6 +146,8 @@ func (sm *shardedMap[V]) Cleanup(policy *defaultPolicy[V], onEvict func(item *It
 func (sm *shardedMap[V]) Clear(onEvict func(item *Item[V])) {
 	for i := uint64(0); i < numShards; i++ {
 		sm.shards[i].Clear(onEvict)
+		verifObserve(vpClearShard, i, 0)
+		verifPoint(vpClearShard)
 	}
 	sm.expiryMap.clear()
 }
